@@ -1,5 +1,6 @@
 import H2T.Lemmas.Balance
 import H2T.Lemmas.TagRich
+import H2T.Lemmas.TagTreePre
 
 /-! # C09 — rich annotations mirror element nesting exactly
 
@@ -16,8 +17,12 @@ statement is proved for every render tree without tables and without `<pre>`** (
 `rich_tags_are_annotating_ancestors`): the characters of the rendered lines, with their tag vectors and in order, are
 those of the specification `nodeT` — each character of a text node tagged with the annotations of its annotating
 ancestors, outermost first — for every width, wrapping and block nesting (compared on a content alphabet that the block
-prefixes avoid, since a prefix is repeated on every line).  Tables (cells side by side) and `<pre>` (the continuation
-flag depends on wrapping) are decided by correspondence and the per-character oracle. -/
+prefixes avoid, since a prefix is repeated on every line).  **`<pre>` is covered too** (`tags_are_annotating_ancestors_pre`):
+inside a `<pre>` element every character additionally carries the `Preformat` annotation on top of the stack; whether its
+flag reads `false` (first piece of a line) or `true` (continuation after a hard wrap) depends on wrapping, so the tag
+vectors are compared under the view `erasePre` that identifies the two.  Tables (cells side by side) and the value of
+the continuation flag are decided by correspondence and the per-character oracle (C12 proves the flag for lines that
+fit). -/
 
 namespace H2T.C09
 
@@ -171,6 +176,40 @@ theorem rich_tags_are_annotating_ancestors (cfg : Cfg) (w : Nat) (tree : RNode) 
     (hfn : cfg.footnotes = false) (ht : plainTree tree = true) (h : renderTree cfg Deco.rich w tree = .ok ls) :
     pf richAlpha (ls.flatMap trink) = pf richAlpha (nodeT cfg Deco.rich [] 0 tree) :=
   renderTree_tags richAlpha cfg Deco.rich w tree ls hfn rich_avoids ht h
+
+/-- **`<pre>` included**: for every render tree without tables — `<pre>` elements at any depth, with inline annotating
+    elements inside them — every width, configuration (footnotes off), decorator and alphabet the prefixes avoid, and every
+    view `ν` of tag vectors that identifies `Preformat(true)` with `Preformat(false)`: the viewed tagged characters of the
+    rendered lines are exactly those of the specification `nodeTN`, which adds the preformat annotation on top of the
+    ancestors' annotations for text below a `<pre>` element (within the same sub-renderer) -/
+theorem tags_are_annotating_ancestors_pre (ν : Tag → Tag) (P : Ch → Bool) (cfg : Cfg) (d : Deco) (hν : PreView ν d) (w : Nat)
+    (tree : RNode) (ls : List RLine) (hfn : cfg.footnotes = false) (hd : DecoAvoids P d) (ht : noTable tree = true)
+    (h : renderTree cfg d w tree = .ok ls) : vw ν P (ls.flatMap trink) = pf P (nodeTN ν cfg d [] 0 0 tree) :=
+  renderTree_tagsN ν P cfg d hν w tree ls hfn hd ht h
+
+/-- …for rich output, with the view that erases the continuation flag -/
+theorem rich_tags_are_annotating_ancestors_pre (cfg : Cfg) (w : Nat) (tree : RNode) (ls : List RLine) (hfn : cfg.footnotes = false)
+    (ht : noTable tree = true) (h : renderTree cfg Deco.rich w tree = .ok ls) :
+    vw erasePre richAlpha (ls.flatMap trink) = pf richAlpha (nodeTN erasePre cfg Deco.rich [] 0 0 tree) :=
+  renderTree_tagsN erasePre richAlpha cfg Deco.rich erasePre_rich w tree ls hfn rich_avoids ht h
+
+/-- what the specification says about a text node at `pre` depth `pre`: the ancestors' annotations, the node's colours,
+    and the preformat annotation when some enclosing element of the same sub-renderer is a `<pre>` -/
+theorem spec_text_pre (ν : Tag → Tag) (cfg : Cfg) (d : Deco) (st : Tag) (dep pre : Nat) (sty : Style) (s : List Ch) :
+    nodeTN ν cfg d st dep pre (.text sty s) =
+      (keep (iterN strikeFilter dep s)).map fun c =>
+        ⟨c, ν (if pre + (if sty.pre then 1 else 0) > 0 then st ++ styleTags d sty ++ [d.annOf (Ann.pre false)] else st ++ styleTags d sty)⟩ := rfl
+
+/-! non-vacuity: a `<pre>` block holding a long word, a blank and an emphasised word at width 5 (hard wraps: the rendered
+    cells carry `Preformat(true)` from the sixth character on), followed by a quoted paragraph -/
+def exPre : RNode := .box {} .container [
+  .box {pre := true, ws := some .pre} .block [.text {} (strCh "abcdefgh ij"), .box {} .em [.text {} (strCh "klmnopq")]],
+  .box {} .quote [.box {} .block [.text {} (strCh "rs")]]]
+example : noTable exPre = true := by decide
+example : ((renderTree {} Deco.rich 5 exPre).toOption.map fun ls => vw erasePre richAlpha (ls.flatMap trink)) =
+    some (pf richAlpha (nodeTN erasePre {} Deco.rich [] 0 0 exPre)) := by decide +kernel
+example : ((renderTree {} Deco.rich 5 exPre).toOption.map fun ls => ((ls.flatMap trink).filter fun c => c.tag.contains (Ann.pre true)).length) = some 12 := by
+  decide +kernel
 
 /-- with whitespace block prefixes (custom decorators; `dd` indentation) nothing needs to be filtered: *all* visible cells
     of the output are those of the program, in order, with their tags -/
